@@ -167,7 +167,10 @@ def resimulate(item):
         cwd0, argv0 = os.getcwd(), list(sys.argv)
         logging.disable(logging.CRITICAL)
         try:
-            r = HipRaXClient().get_hip_ra_result(HipRaInputParameters(file_path_or_params_dict=f))
+            import contextlib
+            import io
+            with contextlib.redirect_stdout(io.StringIO()), contextlib.redirect_stderr(io.StringIO()):
+                r = HipRaXClient().get_hip_ra_result(HipRaInputParameters(file_path_or_params_dict=f))
             report = Path(r.output_file_path).read_text()
         except BaseException:  # noqa: BLE001
             report = None
